@@ -1029,6 +1029,30 @@ fn check_flag(set_true: bool, which: &str, given: bool, h: &mut Hist) -> Vec<(St
     bad
 }
 
+/// (f') an argument that is only told `num_args(0)`: action SetTrue, bool parser and the default
+/// `false` are all implied (documented on `Arg::num_args` / `ArgAction::SetTrue`)
+fn check_implied_flag(given: bool, h: &mut Hist) -> Vec<(String, String)> {
+    let mut bad = vec![];
+    let cmd = clap::Command::new("prog").arg(clap::Arg::new("f").long("f").num_args(0));
+    let argv: Vec<&str> = if given { vec!["prog", "--f"] } else { vec!["prog"] };
+    match cmd.try_get_matches_from(argv) {
+        Ok(m) => {
+            h.nontrivial += 1;
+            let got = m.try_get_one::<bool>("f").map(|v| v.copied());
+            if !matches!(got, Ok(Some(v)) if v == given) {
+                bad.push(("an argument with only num_args(0) is not a bool flag with default false".into(), format!("given={}: typed bool access gives {:?}", given, got.map_err(|e| e.to_string()))));
+            }
+            let src = m.value_source("f");
+            let want_src = if given { clap::parser::ValueSource::CommandLine } else { clap::parser::ValueSource::DefaultValue };
+            if src != Some(want_src) {
+                bad.push(("an argument with only num_args(0) is not a bool flag with default false".into(), format!("given={}: value source {:?}", given, src)));
+            }
+        }
+        Err(e) => bad.push(("an argument with only num_args(0) is not a bool flag with default false".into(), format!("given={}: {:?}", given, e.kind()))),
+    }
+    bad
+}
+
 fn recheck(case: &Value) -> Vec<Violation> {
     let mut h = Hist::new();
     let cand = unhex(case["string_hex"].as_str().unwrap_or(""));
@@ -1045,6 +1069,10 @@ fn recheck(case: &Value) -> Vec<Violation> {
         "pv" => {
             let ic = case["ignore_case"].as_bool().unwrap_or(false);
             catch(|| check_pv(ic, &cand, &mut h))
+        }
+        "implied-flag" => {
+            let given = case["given"].as_bool().unwrap_or(true);
+            catch(|| check_implied_flag(given, &mut h))
         }
         "flag" => {
             let which = case["parser"].as_str().unwrap_or("bool").to_string();
@@ -1158,6 +1186,21 @@ fn main() {
                     Err(p) => rep.violation(Violation { cause: p.key(), order: (1 << 39, 0), what: p.show(), case: mk() }),
                 }
             }
+        }
+    }
+    for given in [false, true] {
+        h.evaluations += 1;
+        h.states += 1;
+        h.transitions += 1;
+        h.validated += 1;
+        let mk = || json!({"part": "implied-flag", "given": given});
+        match catch(|| check_implied_flag(given, &mut h)) {
+            Ok(bad) => {
+                for (cause, w) in bad {
+                    rep.violation(Violation { cause: cause.clone(), order: (1 << 39, 1), what: format!("{}: {}", cause, w), case: mk() });
+                }
+            }
+            Err(p) => rep.violation(Violation { cause: p.key(), order: (1 << 39, 1), what: p.show(), case: mk() }),
         }
     }
     let pc = pv_candidates();
